@@ -16,8 +16,8 @@ open AsmjitVerif.X86Validate AsmjitVerif.X86Forms AsmjitVerif.Gen.X86Forms
 /-- the constants Model/X86Validate.lean spells out are the compiler's -/
 theorem consts_agree : AsmjitVerif.Gen.X86Sig.consts =
     [("avxB16", avxB16), ("avxB32", avxB32), ("avxB64", avxB64), ("avxER", avxER), ("avxK", avxK), ("avxSAE", avxSAE), ("avxZ", avxZ),
-     ("kEvex", ifEvex), ("kLock", ifLock), ("kMaxOpCount", 6), ("kRep", ifRep), ("kRepIgnored", ifRepIgnored), ("kVirtIdMin", virtIdMin),
-     ("kXAcquire", ifXAcquire), ("kXRelease", ifXRelease), ("modeX64", 2), ("modeX86", 1), ("optER", optER), ("optLock", optLock),
+     ("kEvex", ifEvex), ("kLock", ifLock), ("kMaxOpCount", 6), ("kRep", ifRep), ("kRepIgnored", ifRepIgnored), ("kVex", ifVex), ("kVirtIdMin", virtIdMin), ("kVsib", ifVsib),
+     ("kXAcquire", ifXAcquire), ("kXRelease", ifXRelease), ("modeX64", 2), ("modeX86", 1), ("optER", optER), ("optEvex", optEvex), ("optLock", optLock),
      ("optRep", optRep), ("optRepne", optRepne), ("optRex", optRex), ("optSAE", optSAE), ("optXAcquire", optXAcquire),
      ("optXRelease", optXRelease), ("optZMask", optZMask), ("rtBnd", rtBnd), ("rtControl", rtControl), ("rtDebug", rtDebug),
      ("rtGp16", rtGp16), ("rtGp32", rtGp32), ("rtGp64", rtGp64), ("rtGp8Hi", rtGp8Hi), ("rtGp8Lo", rtGp8Lo), ("rtLabelTag", rtLabelTag),
